@@ -437,13 +437,12 @@ fn judge(is_req: bool, expect: &Expect, got: &Result<Result<Got, String>, String
         Err(p) => return ("panic", Some(("panic", format!("codec panicked: {p}")))),
         Ok(g) => g,
     };
-    const NO_LIST: &[HeaderResponse] = &[];
-    let list_of = |g: &'_ Got| -> &[HeaderResponse] {
+    fn list_of(g: &Got) -> &[HeaderResponse] {
         match g {
             Got::Resps(l) => l,
-            _ => NO_LIST,
+            _ => &[],
         }
-    };
+    }
     match expect {
         Expect::Same(want) => match got {
             Ok(v) if v == want => (class_name("roundtrip", is_req, "ok"), None),
